@@ -13,6 +13,7 @@ import (
 	"os"
 	"runtime"
 	"runtime/debug"
+	"runtime/metrics"
 	"runtime/pprof"
 	"sort"
 	"strings"
@@ -89,9 +90,11 @@ var (
 	baseFail sync.Map // "oracle|family|shape|layout" -> true, base programs that fail an oracle
 )
 
-// watchdog: a case that runs longer than hangAfter is reported under class "hang" (the parser
-// loops are token driven and a case takes micro-seconds; 20 s is four orders of magnitude away).
-const hangAfter = 20 * time.Second
+// watchdog limits (a case takes well under a millisecond of CPU; see func watchdog)
+const (
+	suspectAfter  = 60 * time.Second
+	confirmWithin = 60 * time.Second
+)
 
 type slot struct {
 	start atomic.Int64 // unix nano of the running case, 0 = idle
@@ -447,36 +450,71 @@ func main() {
 	finish(len(inner), len(alpha), seqLen, *dump)
 }
 
+func heapBytes() uint64 {
+	sm := []metrics.Sample{{Name: "/memory/classes/heap/objects:bytes"}}
+	metrics.Read(sm) // no stop-the-world, unlike runtime.ReadMemStats
+	if sm[0].Value.Kind() == metrics.KindUint64 {
+		return sm[0].Value.Uint64()
+	}
+	return 0
+}
+
+// watchdog: a case is only *suspected* when it has been running for suspectAfter (or for 5 s while
+// the heap explodes). A suspicion decides nothing: the same source is run again in a fresh
+// goroutine, and only if that second run does not come back within confirmWithin either is the
+// case reported as class "hang" (a starved or de-scheduled worker can therefore never produce a
+// violation; an unconfirmed suspicion is just counted).
 func watchdog(done chan struct{}) {
 	t := time.NewTicker(time.Second)
 	defer t.Stop()
+	confirming := map[int64]bool{}
+	var mu sync.Mutex
 	for {
 		select {
 		case <-done:
 			return
 		case <-t.C:
-			var ms runtime.MemStats
+			heap := heapBytes()
 			now := time.Now().UnixNano()
 			for _, s := range slots {
 				st := s.start.Load()
 				if st == 0 {
 					continue
 				}
-				stuck := time.Duration(now-st) > hangAfter
-				if !stuck {
-					runtime.ReadMemStats(&ms)
-					if ms.HeapAlloc > 6<<30 && time.Duration(now-st) > 3*time.Second {
-						stuck = true
+				age := time.Duration(now - st)
+				limit := confirmWithin
+				switch {
+				case age > suspectAfter:
+				case heap > 8<<30 && age > 5*time.Second:
+					limit = 10 * time.Second
+				default:
+					continue
+				}
+				mu.Lock()
+				if confirming[st] {
+					mu.Unlock()
+					continue
+				}
+				confirming[st] = true
+				mu.Unlock()
+				src, _ := s.src.Load().(string)
+				what, _ := s.what.Load().(string)
+				go func() {
+					fin := make(chan struct{})
+					go func() {
+						checkSource(src, false)
+						close(fin)
+					}()
+					select {
+					case <-fin:
+						rep.Count("watchdog_suspicions_not_confirmed", 1)
+					case <-time.After(limit):
+						rc := replayCase{Src: src, Oracle: "hang", Detail: fmt.Sprintf("case still running after %s and a second, separate run of the same source did not return within %s", age, limit), Family: what, GoTest: goTest(src)}
+						rep.Violation("hang|"+what, "scanner/parser/formatter does not terminate on "+fmt.Sprintf("%q", src), rc)
+						rep.NotExhaustive("aborted by a non-terminating case")
+						rep.Finish()
 					}
-				}
-				if stuck {
-					src, _ := s.src.Load().(string)
-					what, _ := s.what.Load().(string)
-					rc := replayCase{Src: src, Oracle: "hang", Detail: fmt.Sprintf("case still running after %s (or exhausting memory)", hangAfter), Family: what, GoTest: goTest(src)}
-					rep.Violation("hang|"+what, "scanner/parser/formatter does not terminate on "+fmt.Sprintf("%q", src), rc)
-					rep.NotExhaustive("aborted by a non-terminating case")
-					rep.Finish()
-				}
+				}()
 			}
 		}
 	}
@@ -557,6 +595,7 @@ func replay() {
 		still = true
 		fmt.Println("--- observed: still rejected by the parser")
 	}
+	cfg.Evidence = "" // a replay is not an exploration: keep the evidence file of the last run
 	if still {
 		rep.Violation(class, rc.Oracle+": "+rc.Detail, rc)
 	} else {
